@@ -65,50 +65,66 @@ def _assemble(cli, files, workdir, argv, paired, tag):
         outfiles.close()
 
 
-CUT_MENU = [[-3, 5], [5, -3], [4], [-2], [0, 4], [-2, 0], [0], [7, -1], [-1, 7]]
-PROBE = "ABCDEFGHIJKLMNOPQRSTUVWXYZ"
+CUT_MENU = [[-3, 5], [5, -3], [4], [-2], [0, 4], [-2, 0], [0], [7, -1], [-1, 7], [2, -2], [-6, 6]]
+PROBES = ["ABCDEF", "ABCDEFGHIJKL", "AB", "ABCDEFGH"]
 
 
-def _cut_values(cli, files, workdir, cuts, paired, tag):
-    """the signed lengths of the unconditional cuts in the order in which the assembled pipeline applies them, observed from what each
-    cutter removes from a probe read (paired: the R1 cutters for `-u`, the R2 cutters for `-U`)"""
-    import dnaio
-    info = importlib.import_module("cutadapt.info")
+def _cut_probes(cli, workdir, cuts, paired, tag):
+    """what the real command-line program removes with the given `-u` (paired: `-U`, looking at R2) values from probe reads: observed through
+    the output record and the `{cut_prefix}` / `{cut_suffix}` placeholders of `--rename` — (probe, prefix removed, suffix removed, rest)"""
+    import io
+    import logging
+    import sys
     d = os.path.join(workdir, tag)
     os.makedirs(d, exist_ok=True)
-    argv = [t for c in cuts for t in ("-u", str(c))]
+    fa = "".join(f">p{i}\n{s}\n" for i, s in enumerate(PROBES))
+    for fn in ("in1.fasta", "in2.fasta"):
+        with open(os.path.join(d, fn), "w") as f:
+            f.write(fa)
     if paired:
-        argv += [t for c in cuts for t in ("-U", str(c))]
-        argv += ["-o", os.path.join(d, "out.1.fastq"), "-p", os.path.join(d, "out.2.fastq"), "in.1.fastq", "in.2.fastq"]
+        argv = [t for c in cuts for t in ("-U", str(c))] + ["--rename", "{id} {r2.cut_prefix}|{r2.cut_suffix}", "-o", os.path.join(d, "o1.fasta"),
+                "-p", os.path.join(d, "o2.fasta"), os.path.join(d, "in1.fasta"), os.path.join(d, "in2.fasta")]
     else:
-        argv += ["-o", os.path.join(d, "out.fastq"), "in.fastq"]
-    args = cli.get_argument_parser().parse_args(argv)
-    cli.check_arguments(args, paired)
-    adapters, adapters2 = cli.adapters_from_args(args)
-    outfiles = files.OutputFiles(proxied=False, qualities=True, file_opener=files.FileOpener(threads=0), interleaved=False)
+        argv = [t for c in cuts for t in ("-u", str(c))] + ["--rename", "{id} {cut_prefix}|{cut_suffix}", "-o", os.path.join(d, "o2.fasta"),
+                os.path.join(d, "in2.fasta")]
+    old = sys.stdout, sys.stderr
+    sys.stdout, sys.stderr = io.StringIO(), io.StringIO()
+    handlers = logging.root.handlers[:]
+    lg = logging.getLogger("cutadapt")
+    lg_handlers = lg.handlers[:]
     try:
-        pipeline = cli.make_pipeline_from_args(args, files.FileFormat.FASTQ, outfiles, paired, adapters, adapters2)
-        mods = []
-        for m in pipeline._modifiers:
-            if paired:
-                assert type(m).__name__ == "PairedEndModifierWrapper", type(m).__name__
-                mods.append((m._modifier1, m._modifier2))
-            else:
-                mods.append((m, None))
-        seen = ([], [])
-        for pair in mods:
-            for side in (0, 1):
-                m = pair[side]
-                if m is None:
-                    continue
-                assert type(m).__name__ == "UnconditionalCutter", type(m).__name__
-                rec = dnaio.SequenceRecord("probe", PROBE, "I" * len(PROBE))
-                out = m(rec, info.ModificationInfo(rec)).sequence
-                assert out and out in PROBE and out != PROBE, out
-                seen[side].append(PROBE.index(out) if PROBE.index(out) > 0 else len(out) - len(PROBE))
-        return seen
+        cli.main(["--quiet"] + argv)
     finally:
-        outfiles.close()
+        sys.stdout, sys.stderr = old
+        for h in logging.root.handlers[:]:
+            if h not in handlers:
+                logging.root.removeHandler(h)
+        for h in lg.handlers[:]:
+            if h not in lg_handlers:
+                lg.removeHandler(h)
+    lines = open(os.path.join(d, "o2.fasta")).read().split("\n")
+    rows, i = [], 0
+    recs = {}
+    while i < len(lines):
+        if lines[i].startswith(">"):
+            seq = ""
+            j = i + 1
+            while j < len(lines) and not lines[j].startswith(">"):
+                seq += lines[j]
+                j += 1
+            recs[lines[i][1:].split(" ")[0]] = (lines[i][1:].partition(" ")[2], seq)
+            i = j
+        else:
+            i += 1
+    for k, probe in enumerate(PROBES):
+        info, rest = recs[f"p{k}"]
+        pre, _, suf = info.partition("|")
+        rows.append((probe, pre, suf, rest))
+    return rows
+
+
+def _lean_bytes(s):
+    return "[" + ", ".join(str(ord(c)) for c in s) + "]"
 
 
 def _lean_ints(xs):
@@ -140,11 +156,10 @@ def generate(build_dir):
         paired_rename, _ = _assemble(cli, files, workdir, SINGLE_RENAME + PAIRED_EXTRA, True, "pr")
         _, steps_single = _assemble(cli, files, workdir, STEPS, False, "ss")
         _, steps_paired = _assemble(cli, files, workdir, STEPS + STEPS_PAIRED_EXTRA, True, "sp")
-        cut_rows = []
+        cut_rows, cut_rows2 = [], []
         for k, cuts in enumerate(CUT_MENU):
-            s1, _ = _cut_values(cli, files, workdir, cuts, False, f"c{k}")
-            p1, p2 = _cut_values(cli, files, workdir, cuts, True, f"cp{k}")
-            cut_rows.append((cuts, s1, p1, p2))
+            cut_rows += [(cuts,) + r for r in _cut_probes(cli, workdir, cuts, False, f"c{k}")]
+            cut_rows2 += [(cuts,) + r for r in _cut_probes(cli, workdir, cuts, True, f"cp{k}")]
     finally:
         shutil.rmtree(workdir, ignore_errors=True)
     out = ["/-! GENERATED from /repo's working tree by gen/gen_stageorder.py — do not edit.",
@@ -161,9 +176,12 @@ def generate(build_dir):
            "/-- `" + " ".join(t.replace("@", "") for t in STEPS) + "` -/",
            f"def stepOrderSingle : List String := {_lean_list(steps_single)}", "",
            f"def stepOrderPaired : List String := {_lean_list(steps_paired)}", "",
-           "/-- unconditional cuts: (`-u` values as given (paired: also given as `-U`), cuts applied single-end, paired-end to R1, to R2), each",
-           "    observed from what the assembled modifiers remove from a probe read, in pipeline order -/",
-           "def cutOrder : List (List Int × List Int × List Int × List Int) := [" +
-           ", ".join(f"({_lean_ints(c)}, {_lean_ints(a)}, {_lean_ints(b)}, {_lean_ints(d)})" for c, a, b, d in cut_rows) + "]", "",
+           "/-- unconditional cuts observed on the real command-line program: (`-u` values as given, probe read, `{cut_prefix}`, `{cut_suffix}`,",
+           "    sequence of the output record), bytes -/",
+           "def cutProbes : List (List Int × List UInt8 × List UInt8 × List UInt8 × List UInt8) := [" +
+           ", ".join(f"({_lean_ints(c)}, {_lean_bytes(p)}, {_lean_bytes(a_)}, {_lean_bytes(b_)}, {_lean_bytes(r)})" for c, p, a_, b_, r in cut_rows) + "]", "",
+           "/-- the same for `-U` values, looking at R2 of a paired-end run (`{r2.cut_prefix}`, `{r2.cut_suffix}`) -/",
+           "def cutProbesR2 : List (List Int × List UInt8 × List UInt8 × List UInt8 × List UInt8) := [" +
+           ", ".join(f"({_lean_ints(c)}, {_lean_bytes(p)}, {_lean_bytes(a_)}, {_lean_bytes(b_)}, {_lean_bytes(r)})" for c, p, a_, b_, r in cut_rows2) + "]", "",
            "end Cutadapt.Generated", ""]
     return "StageOrder.lean", "\n".join(out)
